@@ -19,11 +19,13 @@ Rec == ndJsonDeserialize(IOEnv.TRACE)
 
 VARIABLES l,    \* next line of the trace
           ovf,  \* overflow class first observed in this session ("" = none yet)
-          gr    \* graph of the current session as dumped through the storage read API
-vars == <<l, ovf, gr>>
+          gr,   \* graph of the current session as dumped through the storage read API
+          ixpre, \* ghost: ids of the nodes that existed when the session's index was created
+          firstlab \* ghost: <<id, label>> the label written first in the CREATE that made the node
+vars == <<l, ovf, gr, ixpre, firstlab>>
 
 NoGraph == [nodes |-> <<>>, rels |-> <<>>]
-Init == l = 1 /\ ovf = "" /\ gr = NoGraph
+Init == l = 1 /\ ovf = "" /\ gr = NoGraph /\ ixpre = {} /\ firstlab = {}
 
 Emit(f) == PrintT(<<"FINDING", ToJson(f)>>)
 Finding(prop, kind, detail) ==
@@ -69,7 +71,7 @@ TTruth3 ==
           IN /\ (IF Len(bad) = 0 THEN TRUE ELSE Emit(Finding("C23", "truth-table",
                     [row |-> Rows[bad[1]], law |-> Truth3Bad(Rows[bad[1]])])))
              /\ (IF (NRows = 9 /\ Cardinality(pairs) = 9) THEN TRUE ELSE Emit(Finding("C23", "truth-table-rows", NRows)))
-  /\ l' = l + 1 /\ UNCHANGED <<ovf, gr>>
+  /\ l' = l + 1 /\ UNCHANGED <<ovf, gr, ixpre, firstlab>>
 
 (***************************************************************************)
 (* cmp: the full comparison table of a list of values.                     *)
@@ -136,7 +138,7 @@ TCmp ==
   /\ IF ~IsRows THEN Emit(Finding("C23", "query-failed", Res.err))
      ELSE IF NRows # CmpN * CmpN THEN Emit(Finding("C23", "cmp-table-rows", NRows))
      ELSE Report(CmpLaws)
-  /\ l' = l + 1 /\ UNCHANGED <<ovf, gr>>
+  /\ l' = l + 1 /\ UNCHANGED <<ovf, gr, ixpre, firstlab>>
 
 (***************************************************************************)
 (* arith: one integer operator applied to a list of operand pairs.         *)
@@ -163,7 +165,7 @@ TArith ==
           /\ (IF over # {} THEN TRUE ELSE Emit(Finding("C23", "query-failed", Res.err)))
           /\ ovf' = IF over # {} /\ ovf = "" THEN "error" ELSE ovf
           /\ (IF over = {} \/ ovf \in {"", "error"} THEN TRUE ELSE Emit(Finding("C23", "overflow-rule-differs", [op |-> Meta.op, here |-> "error", first |-> ovf])))
-        ELSE IF NRows # n THEN Emit(Finding("C23", "arith-rows", NRows)) /\ UNCHANGED <<ovf, gr>>
+        ELSE IF NRows # n THEN Emit(Finding("C23", "arith-rows", NRows)) /\ UNCHANGED <<ovf, gr, ixpre, firstlab>>
         ELSE
           LET nullbad == {j \in 0..(n - 1) : ArHasNull(j) /\ ~IsNull(ArRowOf(j)[2])}
               inbad   == {j \in 0..(n - 1) : ~ArHasNull(j) /\ InI64(ArExact(j))
@@ -185,7 +187,7 @@ TArith ==
              /\ (IF differ \ {"wrapped", "exact", "float-wrong"} = {} THEN TRUE ELSE Emit(Finding("C23", "overflow-rule-differs",
                               [op |-> Meta.op, here |-> SetToSeq(differ), first |-> first])))
              /\ ovf' = first
-  /\ l' = l + 1 /\ UNCHANGED gr
+  /\ l' = l + 1 /\ UNCHANGED <<gr, ixpre, firstlab>>
 
 (***************************************************************************)
 (* order: ORDER BY over composite keys with directions, SKIP and LIMIT.    *)
@@ -226,7 +228,7 @@ TOrder ==
                    LET i == CHOOSE i \in unsorted : TRUE IN
                    Emit(Finding("C20", "not-sorted", [first |-> Rows[i], second |-> Rows[i + 1], dirs |-> OrdDirs])))
                /\ (IF unsorted # {} \/ foreign # {} \/ misplaced = {} THEN TRUE ELSE Emit(Finding("C20", "wrong-slice", [pos |-> CHOOSE p \in misplaced : TRUE, skip |-> s])))
-  /\ l' = l + 1 /\ UNCHANGED <<ovf, gr>>
+  /\ l' = l + 1 /\ UNCHANGED <<ovf, gr, ixpre, firstlab>>
 
 (***************************************************************************)
 (* agg: grouping and aggregates.  parameter 1 = list of [key, value].      *)
@@ -301,7 +303,7 @@ TAgg ==
        IN /\ (IF (NRows = Cardinality(keys) /\ dupRows = {}) THEN TRUE ELSE Emit(Finding("C21", "one-row-per-key", [rows |-> NRows, keys |-> Cardinality(keys)])))
           /\ (IF Len(bad) = 0 THEN TRUE ELSE Emit(Finding("C21", "aggregate-" \o AggRowBad(Rows[bad[1]]),
                                   [row |-> Rows[bad[1]]])))
-  /\ l' = l + 1 /\ UNCHANGED <<ovf, gr>>
+  /\ l' = l + 1 /\ UNCHANGED <<ovf, gr, ixpre, firstlab>>
 
 (***************************************************************************)
 (* err: one row of the input raises a runtime error; the rule says whether *)
@@ -317,7 +319,7 @@ TErr ==
   /\ IsCase("err")
   /\ (IF ~Consumes(Meta) \/ Res.out = "err" THEN TRUE ELSE Emit(Finding("C22", "error-swallowed", [op |-> Meta.op, pos |-> Meta.pos, fail |-> Meta.fail,
                                               rows |-> NRows, query |-> Rec[l].query])))
-  /\ l' = l + 1 /\ UNCHANGED <<ovf, gr>>
+  /\ l' = l + 1 /\ UNCHANGED <<ovf, gr, ixpre, firstlab>>
 
 (***************************************************************************)
 (* part: rows(no filter) = rows(p) (+) rows(NOT p) (+) rows(p IS NULL)     *)
@@ -343,7 +345,7 @@ TPart ==
                                  THEN "row-lost" ELSE "row-duplicated",
                           [row |-> x, all |-> CountIn(all, x), t |-> CountIn(a, x), f |-> CountIn(b, x),
                            n |-> CountIn(c, x), query |-> Rec[l].query]))
-  /\ l' = l + 1 /\ UNCHANGED <<ovf, gr>>
+  /\ l' = l + 1 /\ UNCHANGED <<ovf, gr, ixpre, firstlab>>
 
 (***************************************************************************)
 (***************************************************************************)
@@ -369,34 +371,94 @@ ReadVerdict(E, O, ret) ==
      ELSE IF Len(ret.order) > 0 /\ unsorted # {} THEN "not-sorted"
      ELSE IF Len(ret.order) > 0 /\ misplaced # {} THEN "wrong-slice"
      ELSE ""
+ReadProp == IF Rec[l].kind = "read" THEN "C11" ELSE IF Meta.indexed THEN "C15" ELSE "C11"
 TRead ==
-  /\ IsCase("read")
+  /\ l <= Len(Rec) /\ Rec[l].ev = "case" /\ Rec[l].kind \in {"read", "idx"}
   /\ LET q == Meta.ast
          E == ResultBag(gr, q)
          v == IF IsRows THEN ReadVerdict(E, Rows, q.ret) ELSE "query-failed"
+         idxCauses ==   \* why the index may have missed the reference rows that were not returned
+           LET lab == q.parts[1].pats[1].nodes[1].labels[1]
+               litv == IF HasWhere(q.parts[1].where) THEN q.parts[1].where[4][2]
+                       ELSE q.parts[1].pats[1].nodes[1].props[1][2][2]
+               missing == {SmallBig(E[p][1][2]) : p \in {x \in 1..Len(E) : CountSame(Rows, E[x]) < CountSame(E, E[x])}}
+               why(id) == LET n == NodeRec(gr, id) stored == PropIn(n.props, "p") IN
+                          IF stored[1] # litv[1] THEN "stored-number-of-the-other-kind"
+                          ELSE IF \E fl \in firstlab : fl[1] = id /\ fl[2] # lab THEN "label-is-not-the-first-label"
+                          ELSE IF id \in ixpre THEN "created-before-the-index"
+                          ELSE "none"
+           IN SetToSeq({why(id) : id \in missing})
          cause == IF v = "" \/ ~IsRows THEN ""
+                  ELSE IF Rec[l].kind = "idx" THEN
+                         (IF \A p \in 1..NRows : CountSame(Rows, Rows[p]) <= CountSame(E, Rows[p])
+                          THEN "index-misses-rows" ELSE "index-adds-rows")
                   ELSE IF MultiPattern(q) /\ ReadVerdict(ResultBagU(gr, q, TRUE), Rows, q.ret) = ""
                        THEN "rel-uniqueness-only-within-one-pattern"
                   ELSE IF BoundMidNode(q) THEN "bound-node-in-the-middle-of-a-pattern"
                   ELSE IF HasParallel(gr) THEN "graph-has-parallel-relationships"
                   ELSE "none"
      IN IF v = "" THEN TRUE
-        ELSE Emit(Finding("C11", v, [cause |-> cause, got |-> NRows, reference |-> Len(E),
+        ELSE Emit(Finding(ReadProp, v, [cause |-> cause,
+                                     causes |-> IF Rec[l].kind = "idx" /\ IsRows THEN idxCauses ELSE <<>>,
+                                     got |-> NRows, reference |-> Len(E),
                                      refrows |-> IF Len(E) <= 6 THEN E ELSE SubSeq(E, 1, 6),
                                      gotrows |-> IF NRows <= 6 THEN Rows ELSE SubSeq(Rows, 1, 6),
                                      err |-> Res.err, query |-> Rec[l].query]))
-  /\ l' = l + 1 /\ UNCHANGED <<ovf, gr>>
+  /\ l' = l + 1 /\ UNCHANGED <<ovf, gr, ixpre, firstlab>>
 
 TSession ==
   /\ l <= Len(Rec) /\ Rec[l].ev = "session"
   /\ gr' = IF "graph" \in DOMAIN Rec[l] THEN Rec[l].graph ELSE NoGraph
-  /\ l' = l + 1 /\ ovf' = ""
+  /\ l' = l + 1 /\ ovf' = "" /\ ixpre' = {} /\ firstlab' = {}
+(* write / admin cases: the graph the following reads are judged on is the one dumped after them *)
+TWrite ==
+  /\ l <= Len(Rec) /\ Rec[l].ev = "case" /\ Rec[l].kind \in {"write", "admin"}
+  /\ gr' = IF "graph" \in DOMAIN Rec[l] THEN Rec[l].graph ELSE gr
+  /\ ixpre' = IF "index_op" \in DOMAIN Meta /\ Meta.index_op /\ IsRows
+              THEN {gr.nodes[i].id : i \in 1..Len(gr.nodes)} ELSE ixpre
+  /\ firstlab' = IF "first_label" \in DOMAIN Meta /\ Meta.first_label # "" /\ "graph" \in DOMAIN Rec[l]
+                 THEN firstlab \cup {<<Rec[l].graph.nodes[i].id, Meta.first_label>> :
+                                      i \in {j \in 1..Len(Rec[l].graph.nodes) :
+                                               \A k \in 1..Len(gr.nodes) : gr.nodes[k].id # Rec[l].graph.nodes[j].id}}
+                 ELSE firstlab
+  /\ l' = l + 1 /\ UNCHANGED ovf
+
+(***************************************************************************)
+(* lim (C33): the same query without limits (res) and under each limit     *)
+(* setting (resl).  A limited run returns the complete result or fails     *)
+(* with a resource-limit error whose reported overshoot is bounded.        *)
+(***************************************************************************)
+StrBagEq(a, b) ==
+  /\ Len(a) = Len(b)
+  /\ \A i \in 1..Len(a) : Cardinality({j \in 1..Len(a) : a[j] = a[i]}) = Cardinality({j \in 1..Len(b) : b[j] = a[i]})
+TLim ==
+  /\ IsCase("lim")
+  /\ LET full == RowStrs(Res)
+         bad(k) ==
+           LET r == Rec[l].resl[k] IN
+           IF r.out = "rows" THEN
+             (IF IsRows /\ ~StrBagEq(RowStrs(r), full) THEN "truncated-or-altered-result" ELSE "")
+           ELSE IF r.out = "panic" THEN "panic"
+           ELSE IF r.errclass # "resource" THEN (IF IsRows THEN "non-resource-error-under-limits" ELSE "")
+           ELSE IF r.limit_err.kind = "Timeout" THEN
+                  (IF r.limit_err.observed > r.limit_err.limit + Meta.time_slack_ms THEN "timeout-overshoot" ELSE "")
+           ELSE IF r.limit_err.kind \in {"IntermediateRows", "ApplyRowsPerOuter"}
+                   /\ r.limit_err.observed > r.limit_err.limit + Meta.count_slack THEN "limit-overshoot"
+           ELSE ""
+         bads == SelectIdx(Len(Rec[l].resl), LAMBDA k : bad(k) # "")
+     IN IF Len(bads) = 0 THEN TRUE
+        ELSE Emit(Finding("C33", bad(bads[1]),
+                          [options |-> Rec[l].resl[bads[1]].options, out |-> Rec[l].resl[bads[1]].out,
+                           err |-> Rec[l].resl[bads[1]].err, limited_rows |-> Len(Rec[l].resl[bads[1]].canon),
+                           full_rows |-> NRows, query |-> Rec[l].query]))
+  /\ l' = l + 1 /\ UNCHANGED <<ovf, gr, ixpre, firstlab>>
+
 TOtherCase ==
   /\ l <= Len(Rec) /\ Rec[l].ev = "case"
-  /\ Rec[l].kind \notin {"truth3", "cmp", "arith", "order", "agg", "err", "part", "read"}
-  /\ l' = l + 1 /\ UNCHANGED <<ovf, gr>>
+  /\ Rec[l].kind \notin {"truth3", "cmp", "arith", "order", "agg", "err", "part", "read", "idx", "write", "admin", "lim"}
+  /\ l' = l + 1 /\ UNCHANGED <<ovf, gr, ixpre, firstlab>>
 
-Next == TSession \/ TRead \/ TTruth3 \/ TCmp \/ TArith \/ TOrder \/ TAgg \/ TErr \/ TPart \/ TOtherCase
+Next == TSession \/ TRead \/ TWrite \/ TLim \/ TTruth3 \/ TCmp \/ TArith \/ TOrder \/ TAgg \/ TErr \/ TPart \/ TOtherCase
 Spec == Init /\ [][Next]_vars
 
 TraceAccepted ==
